@@ -3,6 +3,7 @@ CONSTANTS Tokens = {"a", "b"}
           MaxLen = 3
           MaxCalcs = 4
           ResetOnFailure = FALSE
+          AsyncCopy = FALSE
 INVARIANTS DigestIsContent CleanBetweenCalls
 VIEW View
 CHECK_DEADLOCK FALSE
